@@ -69,6 +69,7 @@ pub fn base_spec(rng: &mut ChaCha8Rng, n: usize, policies: Vec<PolicySpec>, conc
         auto_msgs,
         no_schedule: vec![],
         max_events: 20_000,
+        gate_outputs: false,
     }
 }
 
@@ -534,7 +535,7 @@ fn c14_cases(base: &ServerSpec, base_run: &ServerRun, rng: &mut ChaCha8Rng) -> V
     let mut mk = |what: String, must_err: bool, after: usize, action: Action, out: &mut Vec<C14Case>| {
         let mut s = base.clone();
         s.explicit = d.clone();
-        s.injections = vec![Injection { after_events: after, action, burst: false }];
+        s.injections = vec![Injection { after_events: after, action, burst: false, burst_before: false }];
         out.push(C14Case { spec: s, what, must_err });
     };
     for p in 0..n {
@@ -799,7 +800,9 @@ impl Check for C15 {
         if k % 2 == 0 {
             ps.dest = vec![true; n];
         }
-        let base = base_spec(&mut rng, n, vec![ps], vec![1; n], k % 4 != 1);
+        let mut base = base_spec(&mut rng, n, vec![ps], vec![1; n], k % 4 != 1);
+        // slow destination: output deliveries are explorer events in half of the configurations
+        base.gate_outputs = k % 2 == 1;
         let base_run = server::run(&base);
         let bv = c13_oracle(&base, &base_run);
         if !bv.is_empty() {
@@ -808,11 +811,29 @@ impl Check for C15 {
         }
         let total = base_run.decisions.len();
         let mut i = 0u64;
+        // a destination that reacts to its first notification by cancelling (Cancel enqueued while the
+        // delivering task is still running)
         for p in 0..n {
-            for kk2 in 0..=(2 * total + 1) {
-                // every point once quiesced, once in the same step as the preceding event (burst)
-                let (kk, burst) = (kk2 / 2, kk2 % 2 == 1);
-                if burst && kk == 0 {
+            if !base.policies[0].dest[p] || shard != (p as u64) % 4 {
+                continue;
+            }
+            let mut s = base.clone();
+            s.explicit = base_run.decisions.clone();
+            s.injections = vec![Injection { after_events: 0, action: Action::CancelFromOutput { party: p, comp: 1 }, burst: false, burst_before: false }];
+            cx.begin(&serde_json::to_value(&s).unwrap());
+            let run = server::run(&s);
+            out.evals += 1;
+            out.sim_steps += run.events;
+            out.count("cancel_from_inside_the_output_delivery", 1);
+            out.distinct.push(entropy::mix(base.seed, p as u64, 0xffff));
+            out.violations.extend(c15_oracle(&s, &run));
+        }
+        for p in 0..n {
+            for kk2 in 0..(3 * (total + 1)) {
+                // every point once quiesced, once in the same step right after the preceding event
+                // (burst), once in the same step right before the following event (burst-before)
+                let (kk, mode) = (kk2 / 3, kk2 % 3);
+                if (mode == 1 && kk == 0) || (mode == 2 && kk >= total) {
                     continue;
                 }
                 i += 1;
@@ -824,7 +845,7 @@ impl Check for C15 {
                 }
                 let mut s = base.clone();
                 s.explicit = base_run.decisions.clone();
-                s.injections = vec![Injection { after_events: kk, action: Action::Cancel { party: p, comp: 1 }, burst }];
+                s.injections = vec![Injection { after_events: kk, action: Action::Cancel { party: p, comp: 1 }, burst: mode == 1, burst_before: mode == 2 }];
                 // in a share of the runs a constants (or run) RPC of this computation additionally fails:
                 // cancel must stay synchronised with tasks that can still notify the destination
                 if i % 3 == 0 {
@@ -851,7 +872,7 @@ impl Check for C15 {
                 let c = run.calls.iter().find(|c| c.what == "cancel");
                 out.count(&format!("cancel_result:{:?}", c.and_then(|c| c.ok)), 1);
                 let prev = base_run.decisions.get(kk.wrapping_sub(1)).map(|d| d.split(' ').next().unwrap_or("").to_string()).unwrap_or_else(|| "start".into());
-                out.count(&format!("cancel_after:{prev}{}", if burst { "(burst)" } else { "" }), 1);
+                out.count(&format!("cancel_after:{prev}{}", ["", "(burst)", "(burst-before-next)"][mode]), 1);
                 out.distinct.push(entropy::mix(base.seed, p as u64, kk2 as u64));
                 out.violations.extend(c15_oracle(&s, &run));
                 if out.samples.is_empty() && kk == total / 2 {
@@ -991,6 +1012,7 @@ fn c17_gen(seed: u64, k: u64) -> ServerSpec {
                 after_events: rng.random_range(0..30),
                 action: Action::Cancel { party: rng.random_range(0..n), comp: ps.comp },
                 burst: rng.random_bool(0.3),
+                burst_before: false,
             });
         }
         _ => {}
